@@ -191,8 +191,7 @@ def netAnswer (dir n a w d : String) (dw : String := "-") : String :=
     "closeness_conv=" ++ showRats (R.map (closenessConv ((N : Rat) - 1) N Dw)),
     "interregional_betweenness=" ++ betwAnswer directed N A (fun _ => netInterregionalBetweenness N A),
     "nsi_betweenness=" ++ betwAnswer directed N A (fun _ => netNsiBetweenness N A W),
-    "path_lengths=" ++ join (R.map fun i => showOptRats (R.map fun j =>
-        (distTable N A i j).map fun (k : Nat) => (k : Rat))) ";"] "|"
+    "path_lengths=" ++ join (R.map fun i => showOptRats (R.map fun j => distQ N A i j)) ";"] "|"
 
 /-- `normprod <m> <k,k,…>`: `k·(k−1)` evaluated in the signed integer type of range `[-m, m)` -/
 def normProdAnswer (m ks : String) : String :=
